@@ -576,3 +576,240 @@ Proof.
     cbn in H |- *; try congruence.
 Qed.
 End DriverProofs.
+
+(* ------------------------------------------------------------------ rule types, hosts form *)
+Section ParseFilterProofs.
+Variable lower : str -> str.
+Variable idna : str -> option str.
+
+Theorem parse_filter_rule_types line fmt rt p :
+  parse_filter lower idna line fmt rt = Ok (inl p) ->
+  match p with
+  | PNetwork _ => loads_network rt = true
+  | PCosmetic _ => loads_cosmetic rt = true /\ fmt = FF_Standard
+  end.
+Proof.
+  unfold parse_filter. destruct (null (trim line)); [discriminate|]. destruct fmt.
+  - destruct (detect_filter_type (trim line)) as [ty|w]; cbn [rbind]; [|discriminate].
+    destruct (N.eqb ty FT_NETWORK && loads_network rt) eqn:E1.
+    + destruct (network_parse lower idna (trim line)) as [[f|e]|w]; cbn [pbind]; unfold ret; intros H;
+        inversion H; subst. apply andb_true_iff in E1. tauto.
+    + destruct (N.eqb ty FT_COSMETIC && loads_cosmetic rt) eqn:E2; [|discriminate].
+      destruct (cosmetic_parse idna (trim line)) as [[f|e]|w]; cbn [pbind]; unfold ret; intros H;
+        inversion H; subst. apply andb_true_iff in E2. tauto.
+  - destruct (loads_network rt) eqn:E; cbn [negb]; [|discriminate].
+    destruct (hosts_hostname (trim line)) as [[h|e]|w]; cbn [pbind]; try discriminate.
+    destruct (parse_hosts_style lower idna h) as [[f|e]|w]; cbn [pbind]; unfold ret; intros H;
+      inversion H; subst. reflexivity.
+Qed.
+
+(* a hosts-format entry is the rule  ||host^  with host = lower-cased, "www."-stripped, punycoded *)
+Theorem hosts_equiv line rt p :
+  parse_filter lower idna line FF_Hosts rt = Ok (inl p) ->
+  exists h a f,
+    hosts_hostname (trim line) = Ok (inl h) /\ norm_host lower idna h = Some a /\
+    network_parse lower idna (bs "||" ++ a ++ bs "^") = Ok (inl f) /\ p = PNetwork f.
+Proof.
+  unfold parse_filter. destruct (null (trim line)); [discriminate|].
+  destruct (negb (loads_network rt)); [discriminate|].
+  destruct (hosts_hostname (trim line)) as [[h|e]|w]; cbn [pbind]; try discriminate.
+  unfold parse_hosts_style. destruct (has_invalid_host_char h); [discriminate|].
+  match goal with |- context[rbind ?x _] => destruct x as [bad|w] end; cbn [rbind pbind]; [|discriminate].
+  destruct bad; [discriminate|]. unfold hosts_rule_text.
+  destruct (norm_host lower idna h) as [a|] eqn:En; [|discriminate].
+  destruct (network_parse lower idna (bs "||" ++ a ++ bs "^")) as [[f|e]|w] eqn:Ep; cbn [pbind];
+    unfold ret; intros H; inversion H; subst.
+  exists h, a, f. auto.
+Qed.
+End ParseFilterProofs.
+
+Lemma parse_list_only_network parse_line ls m mm ns cs :
+  (forall l p, parse_line l = Ok (inl p) -> exists n, p = PNetwork n) ->
+  parse_list parse_line ls m = Ok (mm, ns, cs) -> cs = [].
+Proof.
+  intros Hp. revert m mm ns cs; induction ls as [|l r IH]; intros m mm ns cs.
+  - cbn. intros H; inversion H; reflexivity.
+  - rewrite parse_list_cons. destruct (parse_line l) as [p|w] eqn:E; cbn [rbind]; [|discriminate].
+    destruct (parse_list parse_line r (try_add m l)) as [[[mm' ns'] cs']|w] eqn:E2; cbn [rbind]; [|discriminate].
+    pose proof (IH _ _ _ _ E2) as ->. destruct p as [[n|c]|e]; cbn; intros H; inversion H; try reflexivity.
+    destruct (Hp _ _ E) as [n Hn]. discriminate.
+Qed.
+
+Lemma parse_list_only_cosmetic parse_line ls m mm ns cs :
+  (forall l p, parse_line l = Ok (inl p) -> exists c, p = PCosmetic c) ->
+  parse_list parse_line ls m = Ok (mm, ns, cs) -> ns = [].
+Proof.
+  intros Hp. revert m mm ns cs; induction ls as [|l r IH]; intros m mm ns cs.
+  - cbn. intros H; inversion H; reflexivity.
+  - rewrite parse_list_cons. destruct (parse_line l) as [p|w] eqn:E; cbn [rbind]; [|discriminate].
+    destruct (parse_list parse_line r (try_add m l)) as [[[mm' ns'] cs']|w] eqn:E2; cbn [rbind]; [|discriminate].
+    pose proof (IH _ _ _ _ E2) as ->. destruct p as [[n|c]|e]; cbn; intros H; inversion H; try reflexivity.
+    destruct (Hp _ _ E) as [c Hc]. discriminate.
+Qed.
+
+Theorem rule_types_respected lower idna fmt rt ls m mm ns cs :
+  parse_list (fun l => parse_filter lower idna l fmt rt) ls m = Ok (mm, ns, cs) ->
+  (loads_cosmetic rt = false \/ fmt = FF_Hosts -> cs = []) /\ (loads_network rt = false -> ns = []).
+Proof.
+  intros H. split.
+  - intros Hc. eapply parse_list_only_network; [|exact H]. intros l p Hp. cbn beta in Hp.
+    pose proof (parse_filter_rule_types _ _ _ _ _ _ Hp) as Hr. destruct p as [n|c]; [eauto|].
+    destruct Hr as [Hr1 Hr2]. destruct Hc as [Hc|Hc]; congruence.
+  - intros Hn. eapply parse_list_only_cosmetic; [|exact H]. intros l p Hp. cbn beta in Hp.
+    pose proof (parse_filter_rule_types _ _ _ _ _ _ Hp) as Hr. destruct p as [n|c]; [congruence|eauto].
+Qed.
+
+(* ------------------------------------------------------------------ Unicode white space *)
+Lemma ws3_inv a b c : ws3 a b c = true ->
+  (a = 225 \/ a = 226 \/ a = 227) /\ is_cont b = true /\ is_cont c = true.
+Proof. unfold ws3, is_cont, rng. intros H. lia. Qed.
+
+Lemma lead3_run a b c : (a = 225 \/ a = 226 \/ a = 227) -> is_cont b = true -> is_cont c = true ->
+  urun UA [a; b; c] = UA.
+Proof.
+  intros Ha Hb Hc. unfold urun. cbn [fold_left].
+  assert (ustep UA a = U2) as -> by (destruct Ha as [->|[->| ->]]; reflexivity).
+  cbn [ustep]. rewrite Hb. cbn [ustep]. rewrite Hc. reflexivity.
+Qed.
+
+Lemma ws_len_inv s k : ws_len s = S k ->
+  (S k <= length s)%nat /\ urun UA (take (S k) s) = UA /\
+  exists a r, s = a :: r /\ is_cont a = false.
+Proof.
+  unfold ws_len. destruct s as [|a r]; [discriminate|].
+  destruct (ws1 a) eqn:E1.
+  - intros H; inversion H; subst. unfold ws1, rng in E1. cbn [length take firstn]. split; [lia|]. split.
+    + unfold urun. cbn [fold_left]. apply ustep_UA_ascii. lia.
+    + exists a, r. split; [reflexivity|]. unfold is_cont, rng. lia.
+  - destruct r as [|b r']; [discriminate|]. destruct (ws2 a b) eqn:E2.
+    + intros H; inversion H; subst. unfold ws2 in E2. cbn [length take firstn]. split; [lia|]. split.
+      * assert (a = 194) as -> by lia. unfold urun. cbn [fold_left]. change (ustep UA 194) with U1.
+        cbn [ustep]. assert (is_cont b = true) as -> by (unfold is_cont, rng; lia). reflexivity.
+      * exists a, (b :: r'). split; [reflexivity|]. unfold is_cont, rng. lia.
+    + destruct r' as [|c r'']; [discriminate|]. destruct (ws3 a b c) eqn:E3; [|discriminate].
+      intros H; inversion H; subst. apply ws3_inv in E3 as (Ha & Hb & Hc).
+      cbn [length take firstn]. split; [lia|]. split.
+      * apply lead3_run; assumption.
+      * exists a, (b :: c :: r''). split; [reflexivity|]. unfold is_cont, rng. lia.
+Qed.
+
+Lemma ws_len_rev_inv r k : ws_len_rev r = S k ->
+  (S k <= length r)%nat /\
+  exists a w, rev (take (S k) r) = a :: w /\ is_cont a = false /\ urun UA (a :: w) = UA.
+Proof.
+  unfold ws_len_rev. destruct r as [|c r1]; [discriminate|].
+  destruct (ws1 c) eqn:E1.
+  - intros H; inversion H; subst. unfold ws1, rng in E1. cbn [length take firstn rev app]. split; [lia|].
+    exists c, []. split; [reflexivity|]. split; [unfold is_cont, rng; lia|].
+    unfold urun. cbn [fold_left]. apply ustep_UA_ascii. lia.
+  - destruct r1 as [|b r2]; [discriminate|]. destruct (ws2 b c) eqn:E2.
+    + intros H; inversion H; subst. unfold ws2 in E2. cbn [length take firstn rev app]. split; [lia|].
+      exists b, [c]. split; [reflexivity|]. split; [unfold is_cont, rng; lia|].
+      assert (b = 194) as -> by lia. unfold urun. cbn [fold_left]. change (ustep UA 194) with U1.
+      cbn [ustep]. assert (is_cont c = true) as -> by (unfold is_cont, rng; lia). reflexivity.
+    + destruct r2 as [|a r3]; [discriminate|]. destruct (ws3 a b c) eqn:E3; [|discriminate].
+      intros H; inversion H; subst. apply ws3_inv in E3 as (Ha & Hb & Hc).
+      cbn [length take firstn rev app]. split; [lia|].
+      exists a, [b; c]. split; [reflexivity|]. split; [unfold is_cont, rng; lia|].
+      apply lead3_run; assumption.
+Qed.
+
+Lemma valid_drop_ws s k : valid_utf8 s = true -> ws_len s = S k -> valid_utf8 (drop (S k) s) = true.
+Proof.
+  intros Hv H. apply ws_len_inv in H as (_ & Hr & _).
+  apply valid_app_inv_l with (a := take (S k) s); [apply valid_iff; exact Hr|].
+  rewrite take_drop. exact Hv.
+Qed.
+
+(* trim_start removes a prefix made of whole characters *)
+Lemma trim_start_f_spec fuel s : valid_utf8 s = true ->
+  exists n, trim_start_f fuel s = drop n s /\ (n <= length s)%nat /\ urun UA (take n s) = UA.
+Proof.
+  revert s; induction fuel as [|f IH]; intros s Hv.
+  - exists O. cbn. repeat split; auto; lia.
+  - cbn [trim_start_f]. destruct (ws_len s) as [|k] eqn:E.
+    + exists O. cbn. repeat split; auto; lia.
+    + destruct (ws_len_inv s k E) as (Hl & Hr & _).
+      destruct (IH (drop (S k) s) (valid_drop_ws s k Hv E)) as (n & H1 & H2 & H3).
+      rewrite length_drop in H2. exists (S k + n)%nat. split; [|split; [lia|]].
+      * rewrite H1. unfold drop. rewrite skipn_skipn. f_equal. lia.
+      * rewrite (take_split s (S k) (S k + n)) by lia. rewrite urun_app, Hr.
+        replace (S k + n - S k)%nat with n by lia. exact H3.
+Qed.
+
+Lemma trim_start_spec s : valid_utf8 s = true ->
+  trim_start s = drop (ws_prefix_len s) s /\ good s (ws_prefix_len s).
+Proof.
+  intros Hv. unfold ws_prefix_len, trim_start.
+  destruct (trim_start_f_spec (length s) s Hv) as (n & H1 & H2 & H3). rewrite H1, length_drop.
+  replace (length s - (length s - n))%nat with n by lia. split; [reflexivity|].
+  split; [exact H2|]. apply boundary_state; assumption.
+Qed.
+
+Lemma valid_trim_start s : valid_utf8 s = true -> valid_utf8 (trim_start s) = true.
+Proof.
+  intros Hv. destruct (trim_start_spec s Hv) as [-> Hg]. apply valid_drop; assumption.
+Qed.
+
+Lemma trim_rev_f_valid fuel r : valid_utf8 (rev r) = true -> valid_utf8 (rev (trim_rev_f fuel r)) = true.
+Proof.
+  revert r; induction fuel as [|f IH]; intros r Hv; [exact Hv|].
+  cbn [trim_rev_f]. destruct (ws_len_rev r) as [|k] eqn:E; [exact Hv|].
+  apply IH. destruct (ws_len_rev_inv r k E) as (Hl & a & w & H1 & H2 & H3).
+  rewrite <- (take_drop (S k) r), rev_app_distr, H1 in Hv.
+  apply valid_app_inv_head in Hv; [tauto|exact H2].
+Qed.
+
+Lemma valid_trim_end s : valid_utf8 s = true -> valid_utf8 (trim_end s) = true.
+Proof. intros Hv. unfold trim_end. apply trim_rev_f_valid. rewrite rev_involutive. exact Hv. Qed.
+
+Lemma valid_trim s : valid_utf8 s = true -> valid_utf8 (trim s) = true.
+Proof. intros Hv. unfold trim. apply valid_trim_end, valid_trim_start, Hv. Qed.
+
+Lemma split_ws_f_valid fuel s cur :
+  urun (urun UA (rev cur)) s = UA -> Forall (fun p => valid_utf8 p = true) (split_ws_f fuel s cur).
+Proof.
+  revert s cur; induction fuel as [|f IH]; intros s cur H; [constructor|].
+  cbn [split_ws_f]. destruct s as [|b r].
+  - cbn in H. destruct (null cur); [constructor|]. constructor; [apply valid_iff; exact H|constructor].
+  - destruct (ws_len (b :: r)) as [|k] eqn:E.
+    + apply IH. cbn [rev]. rewrite urun_app. exact H.
+    + destruct (ws_len_inv _ _ E) as (_ & _ & a & r' & Hs & Hc). inversion Hs; subst a r'.
+      pose proof (urun_noncont_head _ _ _ Hc H) as Hq.
+      apply Forall_app. split.
+      * destruct (null cur); [constructor|]. constructor; [apply valid_iff; exact Hq|constructor].
+      * apply IH. cbn [rev urun fold_left]. fold (urun UA (drop (S k) (b :: r))).
+        apply valid_iff. apply valid_drop_ws; [|exact E]. apply valid_iff. rewrite Hq in H. exact H.
+Qed.
+
+Lemma split_whitespace_valid s :
+  valid_utf8 s = true -> Forall (fun p => valid_utf8 p = true) (split_whitespace s).
+Proof. intros Hv. apply split_ws_f_valid. cbn. apply valid_iff. exact Hv. Qed.
+
+(* ------------------------------------------------------------------ the hosts line *)
+Theorem hosts_hostname_props s : valid_utf8 s = true ->
+  safe (hosts_hostname s) /\ forall h, hosts_hostname s = Ok (inl h) -> valid_utf8 h = true.
+Proof.
+  intros Hv. unfold hosts_hostname. destruct (prefixb [c_BANG] s); [split; [exact I|discriminate]|].
+  assert (exists f2x, (match find_byte c_HASH s with
+            | Some h => pre <- slice_to s h ;; let t := trim pre in if null t then fail "Unsupported" else ret t
+            | None => ret s end) = Ok f2x /\ forall f2, f2x = inl f2 -> valid_utf8 f2 = true)
+    as (f2x & -> & Hf2).
+  { destruct (find_byte c_HASH s) as [h|] eqn:F.
+    - assert (G : good s h) by (eapply good_find; [|exact F]; ascii_lt).
+      rewrite slice_to_ok by exact G. cbn [rbind].
+      destruct (null (trim (take h s))).
+      + eexists. split; [reflexivity|]. discriminate.
+      + eexists. split; [reflexivity|]. intros f2 H; inversion H; subst.
+        apply valid_trim, valid_take; assumption.
+    - eexists. split; [reflexivity|]. intros f2 H; inversion H; subst. exact Hv. }
+  destruct f2x as [f2|e]; cbn [pbind]; [|split; [exact I|discriminate]].
+  pose proof (split_whitespace_valid f2 (Hf2 f2 eq_refl)) as Hall.
+  destruct (split_whitespace f2) as [|h1 [|h2 [|h3 rest]]]; cbn [pbind fail ret];
+    try (split; [exact I|discriminate]).
+  - inversion Hall; subst. destruct (str_eqb h1 (bs "localhost")); (split; [exact I|]); [discriminate|].
+    intros h H; inversion H; subst. assumption.
+  - inversion Hall as [|? ? _ Hall']; subst. inversion Hall'; subst.
+    destruct (str_eqb h2 (bs "localhost")); (split; [exact I|]); [discriminate|].
+    intros h H; inversion H; subst. assumption.
+Qed.
